@@ -25,8 +25,8 @@ def run(ctx):
     common.r_argbind(ctx, {"add_constraints_from_two_lists_of_points", "add_constraints_from_one_list_of_points"})
     c07.r_sample_registered(ctx)  # a sample is registered whatever the order in which samples arrive
     c07.r_stationary_list(ctx)   # conditions over list_of_stationary_points see every zero-gradient sample, however it was recorded
-    ctx.floor("class families", len(ca.families), 24)
-    ctx.floor("class conditions", n, 40)
-    ctx.floor("two-list call sites", sites, 27)
-    ctx.floor("symmetry=True sites", sym, 13)
-    ctx.floor("class LMI builders", nl, 5)
+    ctx.floor("class families", len(ca.families), 20)
+    ctx.floor("class conditions", n, 32)
+    ctx.floor("two-list call sites", sites, 20)
+    ctx.floor("symmetry=True sites", sym, 8)
+    ctx.floor("class LMI builders", nl, 3)
